@@ -111,11 +111,13 @@ def gen_mibdump(rng, tier):
     if fmt == 'pysnmp' and rng.random() < 0.5:
         flags.append('--no-python-compile')
     req = [rng.choice(names) for _ in range(rng.choice([1, 1, 2]))]
-    if rng.random() < 0.2:
+    by_file_name = rng.random() < 0.15
+    if by_file_name:
         # asked for by the name of the file (lower case, no extension) rather than by the module name
+        fnames[req[0]] = req[0].lower() + '.txt'
         req = [(fnames[m].rsplit('.', 1)[0] if fnames.get(m) and fnames[m] != m and fnames[m].endswith('.txt') else m) for m in req]
     scn = {'tool': 'mibdump', 'modules': specs, 'fnames': fnames, 'format': fmt, 'flags': flags, 'requested': req,
-           'dest': rng.choice(['missing', 'empty', 'populated']), 'listing_seed': rng.randrange(1 << 30)}
+           'dest': rng.choice(['missing', 'empty', 'populated'] + (['populated'] * 3 if by_file_name else [])), 'listing_seed': rng.randrange(1 << 30)}
     if rng.random() < 0.3:
         scn['stubs'] = [rng.choice(names)]
     if rng.random() < 0.4:
